@@ -316,7 +316,7 @@ PROPS = {
     "C16": dict(
         fuzz=dict(seconds=90),
         pre=miri_pre,
-        jobs=lambda tier: [shards("release", 12), shards("debug", 4)],
+        jobs=lambda tier: [shards("release", 12), shards("debug", 4 if tier == "quick" else 10)],
         eval_keys=["ops"],
         exhaustive=True,
         note_keys=["exhaustive_space"],
@@ -341,7 +341,7 @@ PROPS = {
     ),
     "C18": dict(
         fuzz=dict(seconds=120),
-        jobs=lambda tier: [shards("release", 12), shards("debug", 4)],
+        jobs=lambda tier: [shards("release", 12), shards("debug", 4 if tier == "quick" else 10)],
         eval_keys=["api_ops", "instr_steps"],
         exhaustive=True,
         note_keys=["exhaustive_space"],
